@@ -68,14 +68,20 @@ def kmOp : List String → Option (String × String × Bool)
       pure (m, spec, wf)
   | ["ip", a, b] => do
       let a ← decodeTok a; let b ← decodeTok b
-      let m := ipMatch a.toList b.toList
+      -- dotted quads first, then hex groups
+      let m := match ipMatch a.toList b.toList with
+        | some r => some r
+        | none => ipMatch6 a.toList b.toList
       -- spec: CIDR arithmetic on independently parsed numbers
       let spec : String :=
         match splitOnChar '/' b.toList with
         | [net, len] =>
             match parseIPv4 a.toList, parseIPv4 net, parsePrefixLen len with
             | some x, some n, some l => showBool (inBlock x n l)
-            | _, _, _ => "-"
+            | _, _, _ =>
+                match parseIPv6 a.toList, parseIPv6 net, parsePrefixLen6 len with
+                | some x, some n, some l => showBool (inBlock6 x n l)
+                | _, _, _ => "-"
         | _ => "-"
       pure (showOB m, spec, spec != "-")
   | _ => none
